@@ -166,6 +166,21 @@ def run_property(prop, tier, seed, replay=None):
                 pending_corr.append((mr, c, r))
 
         # every case has been judged; minimise and report a few of each kind (oracle rejections first)
+        # flake rule (DESIGN 5.5): the models that run several real processes (`apply`: four node children per case, eight
+        # cases at once; `cluster`: rnacos processes on loopback) depend on the machine's load; a rejection counts only if
+        # the case, run again on its own, is rejected again - otherwise it is logged as inconclusive
+        confirmed = []
+        for mr_, c, r_orig in pending_oracle:
+            if mr_.model in ("apply", "cluster") and len(confirmed) < 4:
+                rr, _ = core.run_cases(mr_.model, [c], mr_.impl_env, mr_.spec_needs_impl)
+                if core.judge(rr[0])[1]:
+                    notes.append(f"note: inconclusive - case {c.name} was rejected once and accepted when run again on its own")
+                    oracle_rejections -= 1
+                    continue
+                confirmed.append((mr_, c, rr[0]))
+            else:
+                confirmed.append((mr_, c, r_orig))
+        pending_oracle = confirmed
         for mr_, c, r_orig in pending_oracle[:4]:
             open_preds = [mr_.regions[f["region"]] for f in open_findings if f.get("region") in mr_.regions]
             avoid = (lambda cc: any(p(cc) for p in open_preds)) if open_preds else None
@@ -230,6 +245,15 @@ def run_property(prop, tier, seed, replay=None):
                     if not oracle_ok:
                         small = core.shrink(mr.model, r["case"], lambda j: not j[1], mr.impl_env, mr.spec_needs_impl)
                         r2, _ = core.run_cases(mr.model, [small], mr.impl_env, mr.spec_needs_impl)
+                        if core.judge(r2[0])[1]:
+                            # the (minimised) case does not fail when it is run on its own: try the original once more;
+                            # a rejection that cannot be reproduced is no failing input (the batch ran 8 node groups at
+                            # once - a node that was slow to answer is not a violation of the property)
+                            small = r["case"]
+                            r2, _ = core.run_cases(mr.model, [small], mr.impl_env, mr.spec_needs_impl)
+                            if core.judge(r2[0])[1]:
+                                notes.append(f"note: search case {small.name} was rejected once and accepted when re-run")
+                                continue
                         p = core.write_replay(prop.id, seed, "search", small, r2[0],
                                               "found by the directed failing-input search after a broken obligation/"
                                               "correspondence: the implementation violates the spec oracle")
